@@ -300,7 +300,7 @@ func (w *World) assertJustified(ta *ssa.TypeAssert, cells map[*ssa.Function]bool
 		}
 	}
 	// key.(string) inside the loader: every get call passes a string
-	if p, ok := ta.X.(*ssa.Parameter); ok && p.Parent().Parent() != nil {
+	if p, ok := ta.X.(*ssa.Parameter); ok && isLoaderShaped(p.Parent()) {
 		if w.loaderKeyIs(p, ta.AssertedType) {
 			return true, "the loader's key: every cache lookup in the package passes a value of this type"
 		}
@@ -363,7 +363,7 @@ func (w *World) poolYields(g *ssa.Global, t types.Type) bool {
 func (w *World) loaderYields(t types.Type) bool {
 	found := false
 	for _, fn := range w.AllFuncs {
-		if fn.Parent() == nil || len(fn.Params) != 1 || fn.Signature.Results().Len() != 2 {
+		if !isLoaderShaped(fn) {
 			continue
 		}
 		eachInstr(fn, false, func(_ *ssa.Function, in ssa.Instruction) {
@@ -648,4 +648,14 @@ func (w *World) checkTypeDispatch(r *Report) {
 			r.bad("X-RESULT", "dispatch:"+fn.Name(), w.pos(fn.Pos()), fmt.Sprintf("%s has no case for %v and panics on unhandled types", fn.Name(), missing))
 		}
 	}
+}
+
+// isLoaderShaped: a function (closure or named) with the cache loader's
+// signature key -> (value, error), without receiver.
+func isLoaderShaped(fn *ssa.Function) bool {
+	if fn == nil || fn.Signature.Recv() != nil {
+		return false
+	}
+	sig := fn.Signature
+	return sig.Params().Len() == 1 && sig.Results().Len() == 2 && isEmptyIface(sig.Params().At(0).Type()) && isEmptyIface(sig.Results().At(0).Type()) && isErrorType(sig.Results().At(1).Type())
 }
